@@ -18,6 +18,10 @@ import scenario as S
 from translate import pyfuns
 
 TIES = {
+    "C01": {"props": ["PysamlModel.Props.PyTieC01"], "audit": ["PysamlModel/Audit/PyTieC01.lean"],
+            "functions": ["correctly_signed_response"]},
+    "C06": {"props": ["PysamlModel.Props.PyTieC06"], "audit": ["PysamlModel/Audit/PyTieC06.lean"],
+            "functions": ["loads"]},
     "C04": {"props": ["PysamlModel.Props.PyTieC04", "PysamlModel.Props.PyTieCond"],
             "audit": ["PysamlModel/Audit/PyTieC04.lean", "PysamlModel/Audit/PyTieCond.lean"],
             "functions": ["for_me", "_verify", "condition_ok"]},
@@ -60,6 +64,25 @@ def cases(pid, rng, tier):
             for _ in range(n // 4):
                 out.append({"fn": fn, "t": "x", "tm": S.NOW0 + rng.randint(-400, 400), "now": S.NOW0 + rng.randint(-5, 5),
                             "skew": rng.choice([0, 1, 59, 60, 61, 180, 300])})
+    if "correctly_signed_response" in TIES[pid]["functions"]:
+        for sig in ("absent", "valid", "corrupted", "untrusted"):
+            for req in (False, True):
+                for must in (False, True):
+                    out.append({"fn": "correctly_signed_response", "sig": sig, "req": req, "must": must})
+    if "loads" in TIES[pid]["functions"]:
+        ids = [None, "req-1", "req-2", "req-unknown", ""]
+        tables = [[], [["req-1", "/came/1"]], [["req-1", "/came/1"], ["req-2", "/came/2"]], [["req-2", "/x"], ["req-1", "/y"], ["req-1", "/z"]]]
+        for sig in ("absent", "valid", "corrupted"):
+            for req in (False, True):
+                for asy in (True, False):
+                    for irt in ids:
+                        for outs in tables:
+                            for uns in (False, True):
+                                for attr_err, mis in ((False, False), (False, True), (True, False)):
+                                    if sig != "valid" and (uns or attr_err) and irt not in (None, "req-1"):
+                                        continue
+                                    out.append({"fn": "loads", "sig": sig, "req": req, "asynchop": asy, "irt": irt, "outs": outs,
+                                                "allow_uns": uns, "attr_err": attr_err, "mis": mis})
     if "condition_ok" in TIES[pid]["functions"]:
         XS = ["urn:mace:shibboleth:metadata:1.0", "urn:oasis:names:tc:SAML:metadata:ui"]
         ts_offs = [None, "", -86400, -3600, -61, -60, -59, -1, 0, 1, 59, 60, 61, 3600, 86400]
@@ -139,6 +162,51 @@ def run_real(case):
             conds = saml.Conditions(audience_restriction=[
                 saml.AudienceRestriction(audience=[saml.Audience(text=t) for t in r]) for r in case["rs"]])
             v = for_me(conds, case["me"])
+        elif fn == "correctly_signed_response":
+            from saml2 import samlp
+            from saml2.sigver import SecurityContext, SignatureError, pre_signature_part
+
+            resp = samlp.Response(id="r-1", version="2.0", issue_instant=S.fmt_time(S.NOW0))
+            if case["sig"] != "absent":
+                resp.signature = pre_signature_part("r-1")
+            sc = SecurityContext.__new__(SecurityContext)   # the method uses nothing of self but _check_signature
+
+            def _check_signature(decoded_xml, item, node_name, origdoc=None, *a, **k):
+                if case["sig"] != "valid":
+                    raise SignatureError("does not verify")
+                return item
+
+            sc._check_signature = _check_signature
+            v = sc.correctly_signed_response(str(resp), must=case["must"], require_response_signature=case["req"])
+            return {"r": "value", "v": "<object>" if v is not None else None}
+        elif fn == "loads":
+            from saml2.response import AuthnResponse
+            from saml2.sigver import SignatureError
+
+            sig_refuses = case["sig"] == "corrupted" or (case["sig"] == "absent" and case["req"])
+            ar = AuthnResponse.__new__(AuthnResponse)   # the method reads/writes these attributes of self, nothing else
+
+            def _loads(xmldata, decode=True, origxml=None):
+                if sig_refuses:
+                    raise SignatureError("refused by correctly_signed_response")
+                ar.in_response_to = case["irt"]          # what _postamble records
+
+            def check(irt):
+                if case["attr_err"]:
+                    raise AttributeError("'NoneType' object has no attribute 'subject_confirmation'")
+                return not case["mis"]
+
+            ar._loads = _loads
+            ar.check_subject_confirmation_in_response_to = check
+            ar.asynchop = case["asynchop"]
+            ar.in_response_to = None
+            ar.outstanding_queries = {}
+            for k, val in reversed(case["outs"]):        # the first entry for a key is the one a look-up finds
+                ar.outstanding_queries[k] = val
+            ar.allow_unsolicited = case["allow_uns"]
+            ar.came_from = None
+            ar.loads("<xml>", False, None)
+            return {"r": "value", "came_from": ar.came_from}
         elif fn == "condition_ok":
             from saml2 import saml
             from saml2.response import AuthnResponse
